@@ -1,6 +1,7 @@
 package endorse
 
 import (
+	"io"
 	"context"
 
 	"encoding/hex"
@@ -59,7 +60,7 @@ func verifUnsignedTDX(uefi []byte, req *tdx.EndorsementRequest) (*epb.VMTdx, err
 	return &epb.VMTdx{Svn: req.Svn, Measurements: []*epb.VMTdx_Measurement{{Mrtd: verifMR(uefi)}}}, nil
 }
 
-func verifMakeEvents(random any, endorsement *epb.VMLaunchEndorsement) ([]byte, error) {
+func verifMakeEvents(random io.Reader, endorsement *epb.VMLaunchEndorsement) ([]byte, error) {
 	return []byte{0xE5}, nil
 }
 
